@@ -424,6 +424,12 @@ func (e *Engine) Merge(g *T, a, b Value) Value {
 			}
 		}
 		return &NDCount{m: out}
+	case *deferList:
+		if y, ok := b.(*deferList); ok && y == x {
+			return x
+		}
+		e.unsupported("merge of paths with different pending deferred calls")
+		return x
 	case *FileTab:
 		y := b.(*FileTab)
 		out := make(map[string]*SliceV, len(x.m))
